@@ -227,6 +227,11 @@ def small_geo(ctx):
         geo = mg.mulgrid().rectangular([rng.uniform(10, 100) for _ in range(nx)], [rng.uniform(10, 100) for _ in range(ny)],
                                        [rng.uniform(5, 50) for _ in range(nz)], atmos_type=rng.randint(0, 2),
                                        convention=rng.randint(0, 2))
+        if geo.num_layers > 2 and rng.random() < 0.5:
+            # a stepped ground surface: columns of different depth (the geometry's own connection list, which
+            # reorder(geo=...) follows, then has vertical connections starting at different layers)
+            from vf.gen import geos
+            geos.set_surfaces(geo, rng, 'mixed', frac=0.6)
     else:
         import os
         from vf.core import REPO
@@ -244,6 +249,25 @@ def run_random(ctx, spec):
         case = {'geometry': [geo.num_columns, geo.num_layers, geo.atmosphere_type, geo.convention], 'ops': ops_done,
                 'seed': ctx.seed, 'shard': ctx.shard, 'iteration': it}
         g = t2g.t2grid().fromgeo(geo)
+        if it % 2 == 0:
+            # shuffled, then put back into the geometry's order: nothing may get lost on the way, for any atmosphere type
+            # and any shape of the ground surface
+            with ctx.guard(case, where='reorder-to-geometry-order') as gd:
+                perm = [b.name for b in g.blocklist]
+                rng.shuffle(perm)
+                cons = [tuple(b.name for b in c.block) for c in g.connectionlist]
+                rng.shuffle(cons)
+                nb, nc = g.num_blocks, g.num_connections
+                g.reorder(block_names=perm, connection_names=[c[::-1] if rng.random() < 0.3 else c for c in cons])
+                g.reorder(geo=geo)
+                ctx.count('reorders_by_geometry')
+                ctx.see('reorder_by_geometry', 'atmosphere type %d, %s surface' % (geo.atmosphere_type, 'stepped' if any(c.num_layers != geo.columnlist[0].num_layers for c in geo.columnlist) else 'level'))
+                bad = GM.grid_invariants(g)
+                if g.num_blocks != nb or g.num_connections != nc or [b.name for b in g.blocklist] != list(geo.block_name_list) or bad:
+                    ctx.violation('reorder-by-geometry-changes-grid', 'reorder(geo=...) after a shuffle: %d blocks, %d connections before; %d, %d after; block order %s the geometry\'s; %s' % (
+                        nb, nc, g.num_blocks, g.num_connections, 'is' if [b.name for b in g.blocklist] == list(geo.block_name_list) else 'is not', bad[:1]), dict(case, ops=[['reorder', 'shuffled'], ['reorder', 'geo']]))
+            if gd.raised is not None:
+                continue
         nops = rng.randint(5, 60)
         extra_rocks = 0
         stale = set()
@@ -263,7 +287,11 @@ def run_random(ctx, spec):
                     rng.shuffle(dst)
                     op = ('rename_blocks', sorted(zip(src, dst)))
                     ctx.see('rename_cycle_types', GM.cycle_type(op[1]))
-                    g.rename_blocks(dict(op[1]))
+                    if rng.random() < 0.3:
+                        ctx.count('renames_without_name_fixing')
+                        g.rename_blocks(dict(op[1]), fix_blocknames=False)      # (the names are well-formed: nothing to fix)
+                    else:
+                        g.rename_blocks(dict(op[1]))
                 elif r < 0.2:
                     # rename to fresh names (upper-case letters never produced by the geometry)
                     src = rng.sample(names, rng.randint(1, min(5, len(names))))
@@ -297,10 +325,35 @@ def run_random(ctx, spec):
                     cons = [c[::-1] if rng.random() < 0.4 else c for c in cons]
                     op = ('reorder', 'blocks+connections')
                     g.reorder(block_names=perm, connection_names=cons)
-                elif r < 0.38:
+                elif r < 0.36:
                     n = rng.choice(names)
                     op = ('delete_block', n)
                     g.delete_block(n)
+                elif r < 0.38:
+                    # add_block() / add_connection() for a name that exists: documented as replacing the old object
+                    if rng.random() < 0.5 and g.connectionlist:
+                        old = rng.choice(g.connectionlist)
+                        new = t2g.t2connection(list(old.block), old.direction, [d * 2.0 for d in old.distance], old.area * 3.0, old.dircos)
+                        key = tuple(b.name for b in old.block)
+                        nc = g.num_connections
+                        op = ('add_connection[replace]', key)
+                        g.add_connection(new)
+                        if g.num_connections != nc or g.connection.get(key) is not new or new not in g.connectionlist or old in g.connectionlist:
+                            ctx.violation('replace-connection', 'add_connection() of the existing pair %r: %d connections before, %d after; the lookup %s the new object, the list %s it, the old object is %s the list' % (
+                                key, nc, g.num_connections, 'gives' if g.connection.get(key) is new else 'does not give', 'holds' if new in g.connectionlist else 'lacks',
+                                'still in' if old in g.connectionlist else 'out of'), dict(case, ops=ops_done + [list(op)]))
+                    else:
+                        n = rng.choice(names)
+                        oldb = g.block[n]
+                        same = rng.random() < 0.35
+                        # (a block changed and handed in again - the very object the grid holds - is "replaced" by itself)
+                        newb = oldb if same else t2g.t2block(n, oldb.volume * 2.0, oldb.rocktype, centre=oldb.centre)
+                        nb = g.num_blocks
+                        op = ('add_block[%s-%s]' % ('same-object' if same else 'replace', 'connected' if oldb.connection_name else 'isolated'), n)
+                        g.add_block(newb)
+                        if g.num_blocks != nb or g.block.get(n) is not newb or newb not in g.blocklist or (oldb in g.blocklist and not same):
+                            ctx.violation('replace-block', 'add_block() of the existing name %r: %d blocks before, %d after; lookup / list do not hold exactly the new object' % (n, nb, g.num_blocks),
+                                          dict(case, ops=ops_done + [list(op)]))
                 elif r < 0.45:
                     cons = [tuple(b.name for b in c.block) for c in g.connectionlist]
                     if cons:
@@ -389,10 +442,17 @@ def run_random(ctx, spec):
                 elif r < 0.9:
                     op = ('reorder', 'geo')
                     # only meaningful while the grid still is the geometry's grid
-                    if set(geo.block_name_list) == set(b.name for b in g.blocklist) and \
-                            all((c in g.connection or c[::-1] in g.connection) for c in geo.block_connection_name_list) and \
-                            len(geo.block_connection_name_list) == g.num_connections:
+                    # (whether it still is, is known from the history of the sequence - no block or connection added or
+                    #  deleted since fromgeo() - not from the geometry's connection list, which is part of what is under test)
+                    touched = any(o[0].split('[')[0] in ('delete_block', 'delete_connection', 'add_connection', 'minc', '__add__', 'embed', 'add_block', 'rename_blocks') for o in ops_done)
+                    if not touched and set(geo.block_name_list) == set(b.name for b in g.blocklist):
+                        nb, nc = g.num_blocks, g.num_connections
                         g.reorder(geo=geo)
+                        ctx.count('reorders_by_geometry')
+                        if g.num_blocks != nb or g.num_connections != nc or [b.name for b in g.blocklist] != list(geo.block_name_list):
+                            ctx.violation('reorder-by-geometry-changes-grid', 'reorder(geo=...): %d blocks, %d connections before; %d, %d after; block order %s the geometry\'s' % (
+                                nb, nc, g.num_blocks, g.num_connections, 'is' if [b.name for b in g.blocklist] == list(geo.block_name_list) else 'is not'),
+                                dict(case, ops=ops_done + [list(op)]))
                     else:
                         op = None
                 else:
